@@ -20,6 +20,16 @@ CHECKS = {
         "Work inside Cython/C code is not counted (60 s CPU alarm as backstop); nesting deeper than 40 is excluded by the property.",
         "DESIGN.md section 2 C01",
     ),
+    "C03": (
+        "exploration",
+        "exhaustive/sampled call matrix (every magic word, parser function and site alias x 0-3 arguments x 16 shapes) + Hypothesis "
+        "template universes with recursion and argument-multiplying templates; oracle: returns str, raises nothing, CPU/output/memory budgets",
+        "The call matrix is a finite space enumerated completely for <= 2 arguments (sampled for 3 in quick, complete for built-ins in "
+        "thorough); universes are sampled. Failures are bucketed by innermost repo frame so that one root cause is one bucket.",
+        "Per-call 5 s CPU alarm (1000x typical) plus the parent watchdog for stalls inside one C call; 6 GiB address-space cap per worker. "
+        "One open known finding (k^d expansion of nested argument-multiplying templates) is excluded by construction and replayed as witness.",
+        "DESIGN.md section 2 C03",
+    ),
     "C05": (
         "exploration",
         "same generators as C01 (+ cleaner-trigger lexemes); independent iterative tree validator after build_advanced_tree and after each of "
